@@ -277,13 +277,15 @@ EXTRA = {'C01': 'Each configuration additionally runs with failing appenders (no
         'configured sibling loggers. Declarations reach the builders one at a time, in bulk, mixed, or through bulk '
         'calls with one item.',
  'C02': ' Every other record goes the way the macro goes but carries the name of a configured logger as module path '
-        'and file.',
+        "and file. The configuration pool spells names with '-' and '_' (distinct loggers, both spellings as "
+        'targets).',
  'C03': 'Sinks are Append implementors and log::Log implementors attached through the blanket adapter (whose own '
         'enabled() says no); builder styles filter()/filters() are mixed. The real ThresholdFilter takes Neutral / '
         'Reject positions inside scripted chains; a child process counts the calls of the handler given to '
         'init_config_with_err_handler across reconfigurations. Scale: 255 .. 70001 declared appenders with '
         'attachments around 2^8 / 2^16. A fifth of the configurations are declared in a configuration document '
-        '(RawConfig + appenders_lossy) with unbuildable filter entries around the chain (Fanout.tla, Effective).',
+        '(RawConfig + appenders_lossy) with unbuildable filter entries around the chain (Fanout.tla, Effective). A '
+        'third sink kind is a log4rs Logger of its own attached as an appender.',
  'C04': ' Truncate-mode scenarios get a successor appender as well. Every fourth scenario hands over to a successor '
         'appender opened on the same path while the first was alive; one long lifetime (180 records) per batch. '
         'FileAppender.tla has EncodeFail and Close: the traces script encoder failures (also as the first record '
@@ -300,7 +302,8 @@ EXTRA = {'C01': 'Each configuration additionally runs with failing appenders (no
         'appender built while its predecessor is alive). The unperturbed behaviours run a second time on a harness '
         "build with log4rs's background_rotation feature (BackgroundRotation.tla: step-wise rotation threads, "
         'restarts inside one process, liveness), and long behaviours (400 / 1000 records with faults, crashes, '
-        'restarts, obstacles, encoder failures, overlaps) are sampled with TLC -simulate.',
+        'restarts, obstacles, encoder failures, overlaps) are sampled with TLC -simulate. An eighth materialisation '
+        'archives 40 000-byte units of text that does not compress through gzip.',
  'C06': 'The replay materialises every behaviour five times: 10-byte units with DeleteRoller, 400-byte units with a '
         'two-chunk encoder (straddling the 1 KiB BufWriter), 16-byte units with gzip archives and an appender built '
         'from a configuration value, 12-byte units with the index in a directory component of the archive pattern, '
@@ -310,13 +313,15 @@ EXTRA = {'C01': 'Each configuration additionally runs with failing appenders (no
         'size limit (600-byte units, one history at a time); limits at the top of the u64 range; recorded '
         'multi-thread traces. The chunked encoder uses write_all / write_vectored / write / write_fmt in turn; long '
         "behaviours are sampled with TLC -simulate. Instances with ActFull: the configured path takes no byte ('no "
-        "space left'): every append fails, no policy is consulted, nothing rolls (FullStays).",
+        "space left'): every append fails, no policy is consulted, nothing rolls (FullStays). One materialisation "
+        "runs under a policy of the harness's own that compares the size again between roll() and the roller.",
  'C07': 'A .gz archive must be exactly one gzip member (bytes after it count as corruption); windows are also placed '
         'at the top of the u32 index range; rollers are built through the builder and from configuration values. A '
         'seventh template has the rolled file on another filesystem; windows of four are in the quick tier. The env '
         "template's variable value contains the index placeholder, a sixth template has the index inside a variable "
         'name; windows straddle 2^8 and 2^16. Wipe: the archive directory is removed with everything in it between '
-        'two rolls.',
+        'two rolls. A ninth template has a $ENV reference in the last component whose value brings directories '
+        'along.',
  'C08': 'The replay materialises every behaviour five times: 10-byte units with DeleteRoller, 400-byte units with a '
         'two-chunk encoder (straddling the 1 KiB BufWriter), 16-byte units with gzip archives and an appender built '
         'from a configuration value, 12-byte units with the index in a directory component of the archive pattern, '
@@ -338,7 +343,8 @@ EXTRA = {'C01': 'Each configuration additionally runs with failing appenders (no
         'from a configuration value. Every third case has multi-byte literal text in front of the spec; an earlier '
         'record of the same thread fails half-way before each case. Sink scripts include interrupted calls (accept '
         'value 0). The spec is attached to the formatter, a group, the active conditional group, and - for the empty '
-        'text - the inactive one around a non-empty body.',
+        'text - the inactive one around a non-empty body. A fourth carrier is a group around the text as literal '
+        'characters of the pattern.',
  'C11': 'The curated family includes alignment nested in alignment (re-entrant width writers); every fourth case '
         'encodes into a sink that accepts only a prefix per write call. FieldWidths.tla runs in the same check; the '
         'family has absurd widths on literal-only and nested groups. Placeholders stand for 2- and 3-byte '
@@ -351,13 +357,15 @@ EXTRA = {'C01': 'Each configuration additionally runs with failing appenders (no
         'name, ids and context map on the thread before.',
  'C13': 'The declarations reach the builders one at a time, in bulk and in mixtures of both (appender()/appenders(), '
         'logger()/loggers(), and the same for references). Every other case renames the appender namespace onto the '
-        'strings logger names are made of.',
+        'strings logger names are made of. Scale: 21 .. 300 loggers with one name declared three times (first '
+        'declaration wins, two duplicates reported).',
  'C14': 'Registry.tla (insert / clone / lookup of deserializers per trait and kind, 192k histories) is replayed on '
         'log4rs::config::Deserializers in the same run. Wrong-typed kinds at every level; a zero limit as a bare '
         'integer; ConfigFormat.tla (which reader a file name gets) runs in the same check. The surviving file / '
         'rolling appender must print (Debug) exactly like its programmatic twin; the size limit is spelled '
         'differently in each rendering. Refresh rates below one second, compared on the raw document and on what a '
-        'reloader adopts after reading it.',
+        "reloader adopts after reading it. A time trigger's two-hour interval is spelled differently in each "
+        'rendering (2 HOURS, 2 hourS, 7200, 2 Hours).',
  'C15': 'The refresh thread itself is covered impl->spec: scripted lifetimes of the real init_file thread (hook '
         'reloader.sleep) are validated as traces against Reloader.tla (Trace_Reloader.tla): every sleep lasts the '
         'rate of the last applied file. A directed scenario parks a logging thread inside Logger::enabled (hook '
@@ -365,7 +373,8 @@ EXTRA = {'C01': 'Each configuration additionally runs with failing appenders (no
         'of the live scenarios configure a symbolic link that is re-pointed at every edit; long edit / poll '
         'histories are sampled with TLC -simulate; one long lifetime of reconfigurations per batch of swap traces. '
         "Versions of the live documents differ in a child logger's level; the apply event carries log::max_level() "
-        'and must equal MaxLevel of the applied version.',
+        'and must equal MaxLevel of the applied version. One reload of the live scenarios takes longer than every '
+        'refresh rate in use (45 ms): later edits must still be applied.',
  'C16': 'Every other history builds the whole appender (compound policy, trigger kind `time`) from a configuration '
         'value. Random-delay bounds up to u64::MAX. Counts of hours / minutes / seconds around 2^31 / 2^32 seconds '
         'and at the 1000-year maxima (NextTimeBig); lifetimes of 300 arrivals sampled with TLC -simulate.',
@@ -386,16 +395,19 @@ EXTRA = {'C01': 'Each configuration additionally runs with failing appenders (no
         'puts two highlight groups directly next to each other inside a right-aligned group. ConsoleStream.tla '
         '(threads and two appenders on one stream, with and without the stream lock) is model-checked and the bytes '
         'of real child processes on pipes and terminals are validated as a trace (Trace_ConsoleStream.tla); builder '
-        'setters are given in both orders.',
+        'setters are given in both orders. The public ConsoleWriter used by four threads without lock() is validated '
+        "against the same specification with Locked = FALSE: pieces alternate freely, every call's bytes arrive "
+        'whole, escape sequences included.',
  'C19': 'A fifth site rolls three times through a window of two with the index before the reference (an expansion '
         "containing '/' puts the index into a directory component). The environment holds a variable with an "
         'ill-formed name. A sixth site uses a relative path (reference at byte 0) in a scratch working directory. A '
         "seventh site puts the roller's index where the input has a digit (window of three; a variable set for one "
-        'index only).',
+        'index only). The environment holds bystander variables whose value or name is not UTF-8.',
  'C20': 'Junk units include long ones (7..257 letters, a 2-, 3- or 4-byte letter at every place). Junk units with '
         'doubled plural endings and one letter too many. Every interval literal also builds the `time` trigger '
         '(accepted exactly between one unit and 1000 years, never a panic); junk units up to 257 letters. Every '
-        'literal also travels through TOML and as a signed configuration value.'}
+        'literal also travels through TOML and as a signed configuration value. Junk units include valid units with '
+        'one letter missing (ib, ki, econd, ...).'}
 
 NOT_YET = "check not built yet in this round (planned, see DESIGN.md section 7)"
 
